@@ -1115,3 +1115,22 @@ pub fn lagging_reader(ctx: &Ctx) -> Report {
         rep.case(Some(fnv(format!("{}{}{}", total, how, refs_every).as_bytes())));
     })
 }
+
+
+/// A stream behind PagedResults read to its end: `finish()` returns the last page's result, its
+/// other controls in the order the server sent them (the adapter only takes the paging control out).
+/// Same workload and model as C03's paged lane; only what concerns the stream's final result and
+/// its items is C10's.
+pub fn paged_final_result(ctx: &Ctx) -> Report {
+    let mut rep = crate::lanes::c03::paged_results(ctx);
+    let old = std::mem::take(&mut rep.violations);
+    for (sig, mut v) in old {
+        let renamed = match sig.strip_prefix("C03:") {
+            Some(rest) => format!("C10:paged-stream:{}", rest),
+            None => sig,
+        };
+        v.signature = renamed.clone();
+        rep.violations.insert(renamed, v);
+    }
+    rep
+}
